@@ -45,10 +45,13 @@ def make_chooser(seed, ctx):
             lst = follow.get(ctx["sid"], [])
             pn = p / tot
             for item in lst:
-                if item.get("used") or item["n"] != n or item["p"] is None:
+                if item.get("used") or item["p"] is None or item["idx"] >= n:
                     continue
                 q = item["p"]
-                if len(q) == len(pn) and float(np.max(np.abs(q - pn))) < 1e-4 and p[item["idx"]] > 1e-12:
+                m = max(len(q), len(pn))  # Fock cut-offs may differ between the twins: pad with zeros
+                qq = np.pad(q, (0, m - len(q)))
+                pp = np.pad(pn, (0, m - len(pn)))
+                if float(np.max(np.abs(qq - pp))) < 1e-4 and p[item["idx"]] > 1e-12:
                     item["used"] = True
                     return int(item["idx"])
             return int(np.argmax(p))
